@@ -1,7 +1,7 @@
 //! C12 — new mnemonics carry exactly the OS entropy (library part; the CLI part runs under an LD_PRELOAD shim).
 //! The scripted source is a continuous byte stream, so the oracle does not depend on how many requests of which size
 //! an implementation makes: the entropy must be the bytes handed out, in order, and a delivered failure must be an error.
-use crate::entropy::with_script;
+use crate::entropy::{with_script_on_fresh_thread as with_script, ALL_HANDED};
 use explore::{filler_bytes, guard, panic_site, Ctx};
 use hdwallet::mnemonic::{Language, Mnemonic};
 use refmodel::bip39;
@@ -30,6 +30,7 @@ pub fn check_random(ctx: &Ctx, sweep: &str, i: u64, len: usize, pat: &str, patte
                 Err(e) => ctx.violation(format!("{P}:random:{shape}:invalid-phrase"), format!("generated phrase is not valid BIP-39: {e:?}"), replay),
                 Ok(ent) => {
                     if toks.len() != len || mlen != len { ctx.violation(format!("{P}:random:{shape}:wrong-length"), format!("{} words generated for requested length {len}", toks.len()), replay) }
+                    else if !handed.windows(ent.len()).any(|w| w == ent.as_slice()) && ALL_HANDED.lock().map(|a| a.windows(ent.len()).any(|w| w == ent.as_slice())).unwrap_or(false) { ctx.eval(format!("{shape}:served-from-bytes-fetched-during-an-earlier-case")) }
                     else if !handed.windows(ent.len()).any(|w| w == ent.as_slice()) { ctx.violation(format!("{P}:random:{shape}:entropy-not-from-source"), format!("entropy {} of the phrase is not a run of the bytes the source returned ({})", explore::hex(&ent), explore::hex(&handed)), replay) }
                     else if !parses { ctx.violation(format!("{P}:random:{shape}:does-not-parse-back"), "the generated phrase is rejected by the parser", replay) }
                 }
@@ -60,5 +61,28 @@ pub fn run(ctx: &Ctx) {
         let find = |e: &[u8], from: usize| (from..handed.len().saturating_sub(e.len()) + 1).find(|k| handed[*k..*k + e.len()] == *e);
         let ok = match (ent(&p1), ent(&p2)) { (Some(e1), Some(e2)) if e1.len() == e && e2.len() == e => match find(&e1, 0) { Some(k1) => find(&e2, k1 + e).is_some(), None => false }, _ => false };
         if !ok { ctx.violation(format!("{P}:random:len={len},consecutive:repeated-or-derived"), "two consecutive generations do not carry their own, consecutive bytes of the entropy source", json!({"sweep": "consecutive-generations", "index": i, "length": len})) }
+    });
+    // runs of generations on ONE fresh thread: every generation has the requested length and carries its own bytes of the
+    // stream, strictly after those of the generation before it (buffers that are refilled, carved or recycled between
+    // generations show only from the second block of entropy on)
+    let n_gen = if ctx.quick() { 40usize } else { 300 };
+    let plans: Vec<(String, Vec<usize>)> = [12usize, 15, 18, 21, 24].iter().map(|l| (format!("len={l}"), vec![*l; n_gen])).chain([("mixed-lengths".to_string(), (0..n_gen).map(|k| [15usize, 12, 21, 24, 18][k % 5]).collect()), ("mixed-lengths-descending".to_string(), (0..n_gen).map(|k| [24usize, 21, 18, 15, 12][k % 5]).collect())]).collect();
+    ctx.sweep("generation-runs", &format!("{n_gen} generations in a row on one fresh thread for each supported length and for two cyclic mixes of lengths, on a stream of pseudo-random bytes: each phrase has its requested length, parses back, and its entropy is a run of the stream strictly after the run of the previous generation"), plans.len() as u64, |i| {
+        let (name, lens) = &plans[i as usize]; let stream = filler_bytes(ctx.seed, 0xC12A + i, 16384); let lens2 = lens.clone();
+        let (got, _, handed) = with_script(stream, None, false, move || lens2.iter().map(|l| guard(|| Mnemonic::random(Language::English, *l).map(|m| (m.to_phrase(), Mnemonic::from_phrase(m.to_phrase()).is_ok())).ok())).collect::<Vec<_>>());
+        let replay = json!({"sweep": "generation-runs", "index": i, "entry": "Mnemonic::random x N on a fresh thread", "lengths": name, "generations": lens.len()});
+        ctx.sample("generation-runs", || replay.clone());
+        let mut from = 0usize;
+        for (k, (r, l)) in got.iter().zip(lens.iter()).enumerate() {
+            match r {
+                Err(p) => { ctx.eval(format!("run:{name}:panic")); ctx.panic_violation(format!("{P}:random:run,{name}:panic@{}", panic_site(p)), format!("generation {} of the run panics: {p}", k + 1), replay); return; }
+                Ok(None) => { ctx.eval(format!("run:{name}:error")); ctx.violation(format!("{P}:random:run,{name}:error"), format!("generation {} of the run fails although the entropy source answered every request", k + 1), replay); return; }
+                Ok(Some((phrase, parses))) => { let toks: Vec<&str> = phrase.split(' ').collect();
+                    let ent = match bip39::tokens_to_entropy(&toks) { Ok(e) if toks.len() == *l && *parses => e, _ => { ctx.eval(format!("run:{name}:bad-phrase")); ctx.violation(format!("{P}:random:run,{name}:wrong-length-or-invalid"), format!("generation {} of the run, asked for {l} words, produced '{phrase}'", k + 1), replay); return; } };
+                    match (from..handed.len().saturating_sub(ent.len()) + 1).find(|p| handed[*p..*p + ent.len()] == ent[..]) { Some(p) => from = p + ent.len(),
+                        None => { ctx.eval(format!("run:{name}:entropy-not-from-source")); ctx.violation(format!("{P}:random:run,{name}:entropy-not-own-bytes"), format!("generation {} of the run carries entropy {} which is not a run of the source's bytes after those of generation {}", k + 1, explore::hex(&ent), k), replay); return; } } }
+            }
+        }
+        ctx.eval(format!("run:{name}:all-carry-their-own-bytes"));
     });
 }
